@@ -791,7 +791,7 @@ def check(s):
     check_spaces(s, "C02.5")
     check_rescale(s, "C02.5")
     check_constructors(s, "C02.5")
-    check_delegation(s, "C02.5", ["observation", "action_mask", "initial"])
+    check_delegation(s, "C02.5", ["observation", "action_mask", "initial", "transition", "reward", "transition_info"])
     # ---------------------------------------------------------------- C02.8 "sampled actions ... are accepted": a control step of a classic-control
     # environment hands the solver exactly the configured solver / step-size controller / interval and nothing else - an extra limit
     # (max_steps, a tighter tolerance, throw on event) makes a valid action raise for the configurations that need more solver work
